@@ -56,6 +56,8 @@ pub enum Ctor {
 pub struct Cfg {
     pub n: usize,
     pub fault_at: Option<usize>,
+    /// index into `mc_core::source::FAULT_KINDS`
+    pub fault_kind: usize,
     pub chunk0: usize,
     pub ctor: Ctor,
     pub interrupts: u32,
@@ -121,6 +123,7 @@ enum OpResult {
 fn build<'d>(cfg: &Cfg, data: &'d [u8], forced: Vec<(u32, u32)>) -> Result<World<'d>, String> {
     let scfg = SourceCfg::new(data, Grain::Choose(if cfg.menu_all { Menu::AllSizes } else { Menu::Small }))
         .fault_at(cfg.fault_at)
+        .fault_kind(cfg.fault_kind)
         .interrupts(cfg.interrupts)
         .record(true);
     let (inner, src) = ScriptedSource::new(scfg, forced);
@@ -576,7 +579,7 @@ pub fn replay_value(cfg: &Cfg, mode: Mode, hist: &[Step]) -> Value {
         "property": prop_name(mode),
         "subject": "DeferredReader",
         "config": format!("{cfg:?}"),
-        "cfg": {"n": cfg.n, "fault_at": cfg.fault_at, "chunk0": cfg.chunk0, "interrupts": cfg.interrupts, "menu_all": cfg.menu_all,
+        "cfg": {"n": cfg.n, "fault_at": cfg.fault_at, "fault_kind": cfg.fault_kind, "chunk0": cfg.chunk0, "interrupts": cfg.interrupts, "menu_all": cfg.menu_all,
                  "ctor": match cfg.ctor { Ctor::FromRead => json!("from_read"), Ctor::FromBufReader { cap, consume } => json!({"cap": cap, "consume": consume}) },
                  "lie": cfg.lie.map(|(a, c)| json!([a, if c == usize::MAX { -1i64 } else { c as i64 }]))},
         "history": hist.iter().map(|s| json!({"op": op_to_json(&s.op), "choices": s.choices.iter().map(|(c, n)| json!([c, n])).collect::<Vec<_>>() })).collect::<Vec<_>>(),
@@ -621,6 +624,7 @@ fn cfg_from_json(v: &Value) -> Cfg {
     Cfg {
         n: v["n"].as_u64().unwrap() as usize,
         fault_at: v["fault_at"].as_u64().map(|x| x as usize),
+        fault_kind: v["fault_kind"].as_u64().unwrap_or(0) as usize,
         chunk0: v["chunk0"].as_u64().unwrap() as usize,
         interrupts: v["interrupts"].as_u64().unwrap() as u32,
         menu_all: v["menu_all"].as_bool().unwrap_or(false),
@@ -769,7 +773,17 @@ pub fn configs(mode: Mode, tier: Tier) -> Vec<Cfg> {
         }
         for &chunk0 in chunks {
             for fault_at in &faults {
-                v.push(Cfg { n, fault_at: *fault_at, chunk0, ctor: Ctor::FromRead, interrupts: if n <= 5 { 2 } else { 1 }, lie: None, menu_all: false });
+                v.push(Cfg { n, fault_at: *fault_at, fault_kind: 0, chunk0, ctor: Ctor::FromRead, interrupts: if n <= 5 { 2 } else { 1 }, lie: None, menu_all: false });
+                // other non-Interrupted error kinds (UnexpectedEof, WouldBlock, TimedOut, InvalidData, WriteZero)
+                if fault_at.is_some() && n >= 1 && n <= 5 {
+                    let kinds: &[usize] = tier.pick(&[1, 2][..], &[1, 2, 3, 9, 13][..]);
+                    for &fault_kind in kinds {
+                        if tier == Tier::Quick && *fault_at != Some(n / 2) {
+                            continue;
+                        }
+                        v.push(Cfg { n, fault_at: *fault_at, fault_kind, chunk0, ctor: Ctor::FromRead, interrupts: 0, lie: None, menu_all: false });
+                    }
+                }
             }
             // BufReader starts: empty, partly and fully consumed internal buffer
             let caps: &[usize] = tier.pick(&[4][..], &[1, 4, 8][..]);
@@ -781,16 +795,16 @@ pub fn configs(mode: Mode, tier: Tier) -> Vec<Cfg> {
                     if mode == Mode::C14 && tier == Tier::Quick && consume != 1 {
                         continue;
                     }
-                    v.push(Cfg { n, fault_at: None, chunk0, ctor: Ctor::FromBufReader { cap, consume }, interrupts: 0, lie: None, menu_all: false });
+                    v.push(Cfg { n, fault_at: None, fault_kind: 0, chunk0, ctor: Ctor::FromBufReader { cap, consume }, interrupts: 0, lie: None, menu_all: false });
                     if n > 2 {
-                        v.push(Cfg { n, fault_at: Some(n - 1), chunk0, ctor: Ctor::FromBufReader { cap, consume }, interrupts: 0, lie: None, menu_all: false });
+                        v.push(Cfg { n, fault_at: Some(n - 1), fault_kind: 0, chunk0, ctor: Ctor::FromBufReader { cap, consume }, interrupts: 0, lie: None, menu_all: false });
                     }
                 }
             }
             if mode == Mode::C14 {
                 for at in 0..3u32 {
                     for claim in [1usize, usize::MAX] {
-                        v.push(Cfg { n, fault_at: None, chunk0, ctor: Ctor::FromRead, interrupts: 0, lie: Some((at, claim)), menu_all: false });
+                        v.push(Cfg { n, fault_at: None, fault_kind: 0, chunk0, ctor: Ctor::FromRead, interrupts: 0, lie: Some((at, claim)), menu_all: false });
                     }
                 }
             }
